@@ -151,11 +151,12 @@ prop(
     stages=C06_STAGES + [dict(name="c06run", pkg="c06", test="TestC06Run", access=[WORKERS_ACCESS, RUN_ACCESS], timeout_quick=300, timeout_thorough=3000),
                          dict(name="c06file", pkg="c06", test="TestC06FileCleanups", access=[WORKERS_ACCESS, RUN_ACCESS], timeout_quick=300, timeout_thorough=3000),
                          dict(name="c06teardown", pkg="c06", test="TestC06FileTeardown", access=[WORKERS_ACCESS, RUN_ACCESS], timeout_quick=300, timeout_thorough=3000),
-                         dict(name="c06slowsetup", pkg="c06", test="TestC06SlowSetup", access=[WORKERS_ACCESS, RUN_ACCESS], timeout_quick=300, timeout_thorough=3000)],
+                         dict(name="c06slowsetup", pkg="c06", test="TestC06SlowSetup", access=[WORKERS_ACCESS, RUN_ACCESS], timeout_quick=300, timeout_thorough=3000),
+                         dict(name="c06stageup", pkg="c06", test="TestC06StageComingUp", access=[WORKERS_ACCESS, RUN_ACCESS], timeout_quick=300, timeout_thorough=3000)],
     rule="generated scenario programs (cleanup tables of 0-5 cleanups that log, fail, panic or register; bodies/setups of 0-7 actions: register, Fail/Error/Errorf, "
          "FailNow/Fatal/Fatalf/require, panic with error/runtime error/string/int/struct, marks) executed (a) by the real ActiveScenario.Setup/Run on one worker handle, "
          "event log and per-iteration recorded outcome compared exactly with the model; (b) through whole Run.Do runs (users/constant x limit/duration/cancel) for the setup/teardown "
-         "lifecycle, plus a harness-side check that no body starts after the setup cleanups ran; (d) config files with a users or constant stage followed by a constant stage with iterations of 120-260 ms: nothing is in flight when the setup cleanups run nor at return; (e) runs interrupted while their setup is still sleeping (longer than the completion timeout): setup finishes, all its cleanups run in reverse order before the return; non-trivial = a body that registers cleanups and then stops by FailNow/panic (a) / "
+         "lifecycle, plus a harness-side check that no body starts after the setup cleanups ran; (d) config files with a users or constant stage followed by a constant stage with iterations of 120-260 ms: nothing is in flight when the setup cleanups run nor at return; (e) runs interrupted while their setup is still sleeping (longer than the completion timeout): setup finishes, all its cleanups run in reverse order before the return; (f) a users stage of 300-2000 users interrupted the instant its parameter appears in the environment: no iteration starts after the setup cleanups ran or the run returned; non-trivial = a body that registers cleanups and then stops by FailNow/panic (a) / "
          "a program with a non-empty cleanup table (b); distinct = distinct programs",
     assumptions=["scenario code follows the documented contract (FailNow only from the iteration goroutine, no runtime.Goexit)",
                  "recover() semantics of Go; runtime errors implement error",
@@ -309,7 +310,7 @@ prop(
     stages=[POOL_STAGE, GATE_STAGE, dict(name="c03runs", pkg="c02", test="TestC03Runs", access=[WORKERS_ACCESS, POOL_ACCESS, RUN_ACCESS], timeout_quick=300, timeout_thorough=3000)],
     rule="ids (T.Iteration) collected by the scenario in (a) the pool histories of C02 incl. limits 1-60 with 1-8 workers competing for the last ids, (b) whole runs in every trigger mode (constant, staged, ramp, gaussian, users, file with the limit "
          "falling inside one of three stages) with limits 1-400 and concurrency 1-100: sorted ids must be exactly k..1, k <= limit, k = limit when the limit ended the run; oracle = extracted predicate c03_ok; "
-         "a third of the whole runs use a combined scenario whose value already went through a run in the process; non-trivial = limit-ended cases; distinct = distinct observations" + GATE_RULE,
+         "a third of the whole runs use a combined scenario whose value already went through a run in the process; a quarter of the non-file runs use a limit at the far end of uint64; non-trivial = limit-ended cases; distinct = distinct observations" + GATE_RULE,
     assumptions=["atomic.Uint64.Add is an atomic fetch-and-add", "a run that returns well before max-duration with a limit set was ended by the limit"],
 )
 
@@ -317,7 +318,7 @@ prop(
     id="C04",
     stages=[POOL_STAGE, GATE_STAGE, dict(name="c04runs", pkg="c02", test="TestC04Runs", access=[WORKERS_ACCESS, POOL_ACCESS, RUN_ACCESS], timeout_quick=300, timeout_thorough=3000)],
     rule="scenario-side atomic in-flight counter with high-water mark and a live set of *T pointers (duplicate insert = shared handle) in (a) the pool histories of C02, (b) whole runs of constant, staged, ramp, gaussian and users triggers "
-         "with concurrency 1-16 whose first iterations only return once `concurrency` of them overlap (rendezvous, 3s timeout = not all workers usable); oracle = extracted predicate c04_ok; config files of users stages only (long iterations) and of a users stage with its own concurrency followed by a saturated constant stage (per-stage in-flight by stage parameter); every third iteration of the whole runs registers a cleanup from inside a cleanup, and a second rendezvous 60 ms into the run requires all workers to be usable still; non-trivial = rendezvous runs; distinct = distinct observations" + GATE_RULE,
+         "with concurrency 1-16 whose first iterations only return once `concurrency` of them overlap (rendezvous, 3s timeout = not all workers usable); oracle = extracted predicate c04_ok; config files of users stages only (long iterations) and of a users stage with its own concurrency followed by a saturated constant stage (per-stage in-flight by stage parameter); every third iteration of the whole runs registers a cleanup from inside a cleanup, and a second rendezvous 60 ms into the run requires all workers to be usable still; single-tick usability histories on the real pool (requests not a multiple of the workers); every rendezvous counts iterations executing at the same time; non-trivial = rendezvous runs; distinct = distinct observations" + GATE_RULE,
     assumptions=["in the model worker i owns handle i by construction; handle identity in the code is observed, not modelled", "file mode is outside the statement (consecutive stages' pools may overlap)"],
 )
 
@@ -356,7 +357,7 @@ prop(
          "(instant, sleeping, blocked until after the end, never finishing with a short completion timeout): returns within its bound (30s watchdog), no body starts after the return, every started body finished at the return "
          "unless the timeout expired, no start after the deadline (+60ms), goroutine-leak check; oracle = extracted predicate c05_ok; (a') the calls the progress reporter and Run.Do make on the shared Result while a run is triggering, replayed against each other 150000 (thorough 1.5 million) times: a recursive read lock would wedge them; (b) gate script on sources instrumented from the working tree: the progress runner is parked "
          "just before dispatching a due tick and released when main is between the nested read locks of the final rendering; the run must still return; the sync-op listing of the functions the run-level model covers is "
-         "compared with the committed one; config files with 4 s stages and a small limit (limit only / then max-duration / then cancel): the run returns shortly after its last iteration; the runner stage of C18 (Stop and cancellation against a function that is executing) is run for C05 too; non-trivial = anything but (instant bodies, max-duration); distinct = distinct observations",
+         "compared with the committed one; config files with 4 s stages and a small limit (limit only / then max-duration / then cancel): the run returns shortly after its last iteration; the runner stage of C18 (Stop and cancellation against a function that is executing) is run for C05 too; users-mode runs whose context is cancelled as they begin return long before the completion timeout; non-trivial = anything but (instant bodies, max-duration); distinct = distinct observations",
     assumptions=["sync.RWMutex is writer-preferring (a pending Lock blocks new RLocks), as documented", "Go timers never fire early; wall-clock punctuality is the runtime's (one-sided checks with slack)",
                  "the worker pool is an abstract 'all workers exited' event at run level; its own progress is C05_pool_progress",
                  "termination is shown as deadlock-freedom plus environment obligations, not by a ranking function"],
